@@ -15,12 +15,10 @@ MODE_ATTR = self_attr("args", "outputMode")
 
 def declared_modes(ck) -> Tuple[List[str], Optional[str], ast.AST]:
     """(choices of --outputMode, default, node) from Args.parse"""
-    p = ck.ctx.p
-    parse = p.lookup_method(p.get_class("src.args:Args"), "parse", None)
-    if parse is None:
-        raise AnalysisError("Args.parse not found")
-    for n in ast.walk(parse.node):
-        if isinstance(n, ast.Call) and isinstance(n.func, ast.Attribute) and n.func.attr == "add_argument":
+    from .common import option_declarations
+    parse, nodes = option_declarations(ck)
+    for n in nodes:
+        if True:
             kw = {k.arg: k.value for k in n.keywords}
             if isinstance(kw.get("dest"), ast.Constant) and kw["dest"].value == "outputMode":
                 ch = kw.get("choices")
